@@ -53,6 +53,31 @@ def f_qmix : Family :=
 def f_qlerp : Family :=
   { name := "qlerp", kind := .poly, keys := [[]], nOut := fun _ => 4, spec := fun _ j => .add (.mul (qx j) (.sub one a)) (.mul (qy j) a) }
 
-def families : List Family := [f_slerp, f_slerpk, f_qmix, f_qlerp]
+/-! gtx `shortMix` (slerp with early exits at `a ≤ 0`, `a ≥ 1`, the angle taken as `atan2(sqrt(1 − c²), c)`) and `fastMix`
+    (the normalised linear blend) -/
+def sqrtE (e : E) : E := .call1 .sqrt e
+def atan2E (y x : E) : E := .call2 .atan2 y x
+def smSin (c : E) : E := sqrtE (.sub one (.mul c c))
+def smLeaf (z : Nat → E) (c : E) (j : Nat) : E :=
+  let ang := atan2E (smSin c) c
+  let inv := E.div one (smSin c)
+  .add (.mul (.mul (sinE (.mul (.sub one a) ang)) inv) (qx j)) (.mul (.mul (sinE (.mul (.add zero a) ang)) inv) (z j))
+def smLin (z : Nat → E) (j : Nat) : E := .add (.mul (.sub one a) (qx j)) (.mul (.add zero a) (z j))
+def smInner (z : Nat → E) (c : E) (j : Nat) : Tree := .branch (.lt thr c) (.leaf (smLin z j)) (.leaf (smLeaf z c j))
+def shortMixT (j : Nat) : Tree :=
+  .branch (.le a zero) (.leaf (qx j))
+    (.branch (.le one a) (.leaf (qy j))
+      (.branch (.lt cosT zero) (smInner negY (.neg cosT) j) (smInner qy cosT j)))
+def f_shortMix : Family :=
+  { name := "shortMix", kind := .frac, treeMode := true, keys := [[]], nOut := fun _ => 4, spec := fun _ _ => zero,
+    specT := fun _ j => shortMixT j, allowed := fun _ => [smSin cosT, smSin (.neg cosT)] }
+def fmU (j : Nat) : E := .add (.mul (qx j) (.sub one a)) (.mul (qy j) a)
+def fmLen : E := sqrtE (sumE ((List.range 4).map fun i => .mul (fmU i) (fmU i)))
+def f_fastMix : Family :=
+  { name := "fastMix", kind := .frac, treeMode := true, treeWalk := true, keys := [[]], nOut := fun _ => 4, spec := fun _ _ => zero,
+    divFree := true,
+    specT := fun _ j => .branch (.le fmLen zero) (.leaf (if j = 0 then one else zero)) (.leaf (.mul (fmU j) (.div one fmLen))) }
+
+def families : List Family := [f_slerp, f_slerpk, f_qmix, f_qlerp, f_shortMix, f_fastMix]
 
 end Glm.Spec.C13
